@@ -933,6 +933,46 @@ def obs_filter(s, M, p):
     if fc is None and ((F is not None and not f_empty) or (Mk is not None and not m_empty)):
         out.add("filtered_count-absent", "results.filtered_count is not set although a filter/mask was given")
     check_limits(out, run, full, len(expected), what="filter=%r(%s) mask=%r(%s)" % (F, p.get("ff"), Mk, p.get("mf")))
+    # the caller's filter / mask objects belong to the caller: a search must
+    # neither change them nor leave them unusable for the next search on the
+    # same searcher (each object alone, then both again)
+    for name, obj, docs, form in (("filter", fobj, F, p.get("ff", "set")), ("mask", mobj, Mk, p.get("mf", "set"))):
+        if docs is None or out.kinds():
+            continue
+        try:
+            if form in ("set", "bitset"):
+                now = sorted(obj)
+                if now != sorted(set(docs)):
+                    out.add("argument-mutated:" + name, "the %s object (%s) held %r before the search and %r after it" % (
+                        name, form, sorted(set(docs)), now))
+                    continue
+            elif form.startswith("results"):
+                now = sorted(docnums(obj))
+                want = sorted(set(docs) & set(M.live))
+                if now != want:
+                    out.add("argument-mutated:" + name, "the Results object used as %s listed %r before the search and %r after it" % (
+                        name, want, now))
+                    continue
+            alone = docnums(s.search(q, limit=None, **dict(ranking_kwargs(p), **{name: obj})))
+        except Exception as e:
+            k, w = exc_kind(e)
+            out.add("reuse:" + k, "re-using the %s object: %s" % (name, w))
+            continue
+        if name == "filter":
+            exp1 = [d for d in ranking if d in set(docs)]
+        else:
+            exp1 = [d for d in ranking if d not in set(docs)]
+        if alone != exp1:
+            out.add("argument-reused:" + name, "the same %s object (%s) used alone in a second search on the searcher: got %r, "
+                    "expected %r" % (name, form, alone, exp1))
+    if F is not None and Mk is not None and not out.kinds():
+        try:
+            again = docnums(run(None))
+        except Exception as e:
+            out.add(*exc_kind(e))
+            return out
+        if again != expected:
+            out.add("argument-reused:both", "the same search repeated with the same objects: got %r, expected %r" % (again, expected))
     return out
 
 
